@@ -434,8 +434,7 @@ def r6_ranges(ctx):
         k = astx.u(c.generators[0].iter)
         want = "self.get_elected(round_number) + self.get_remaining(round_number) + self.get_eliminated(round_number)"
         filt = [bool_key(Normalizer(q.node, inline=False).guard(t)) for t in c.generators[0].ifs]
-        good = k == want and astx.is_name(c.elt, c.generators[0].target.id) and filt in ([], [f"not eq(len({c.generators[0].target.id}), 0)"],
-                                                                                         [f"ge(len({c.generators[0].target.id}), 1)"])
+        good = k == want and astx.is_name(c.elt, c.generators[0].target.id) and filt in ([], [f"truthy({c.generators[0].target.id})"])
     ctx.check(good, q, comps[0] if comps else q.node, "get_ranking = elected + remaining + eliminated, empty groups dropped", k,
               f"concatenation is `{k}`")
     # get_status_df
